@@ -306,3 +306,39 @@ theorem decodeCore_indep4 (look : Nat → Nat → Option Row) (c : Bool) (w0 : N
 
 
 end C04
+
+namespace C04
+open Gen
+
+theorem lastRow_none (rows : List Row) (ft op : Nat) (h : ∀ x ∈ rows, ¬ (x.ft = ft ∧ x.opcode = op)) :
+    lastRow rows ft op = none := by
+  unfold lastRow
+  suffices H : ∀ (l : List Row), (∀ x ∈ l, ¬ (x.ft = ft ∧ x.opcode = op)) →
+      l.foldl (fun acc x => if x.ft == ft && x.opcode == op then some x else acc) none = none from H rows h
+  intro l
+  induction l with
+  | nil => intro _; rfl
+  | cons a as ih =>
+    intro h
+    simp only [List.foldl]
+    have : ¬ (a.ft == ft && a.opcode == op) = true := by
+      intro hc
+      simp only [Bool.and_eq_true, beq_iff_eq] at hc
+      exact h a List.mem_cons_self hc
+    simp only [this]
+    exact ih (fun x hx => h x (List.mem_cons_of_mem _ hx))
+
+/-- with pairwise distinct (format, opcode) keys, table lookups do not depend on the order in
+    which rows were registered -/
+theorem lastRow_perm (r₁ r₂ : List Row) (hp : r₁.Perm r₂) (hk : (r₁.map rkey).Nodup)
+    (hop : ∀ r ∈ r₁, r.opcode < 1024) (ft op : Nat) : lastRow r₁ ft op = lastRow r₂ ft op := by
+  have hk2 : (r₂.map rkey).Nodup := (hp.map _).nodup_iff.mp hk
+  have hop2 : ∀ r ∈ r₂, r.opcode < 1024 := fun r hr => hop r (hp.symm.subset hr)
+  by_cases h : ∃ r ∈ r₁, r.ft = ft ∧ r.opcode = op
+  · obtain ⟨r, hm, rfl, rfl⟩ := h
+    rw [lastRow_of_mem r₁ hk hop r hm, lastRow_of_mem r₂ hk2 hop2 r (hp.subset hm)]
+  · have h1 : ∀ x ∈ r₁, ¬ (x.ft = ft ∧ x.opcode = op) := fun x hx he => h ⟨x, hx, he⟩
+    have h2 : ∀ x ∈ r₂, ¬ (x.ft = ft ∧ x.opcode = op) := fun x hx => h1 x (hp.symm.subset hx)
+    rw [lastRow_none r₁ ft op h1, lastRow_none r₂ ft op h2]
+
+end C04
